@@ -595,7 +595,7 @@ pub fn gen_case(seed: u64, shard: u64, run: u64, t: &Tier) -> Case {
     let k = CellKnobs {
         tool_p: 0.8,
         base_p: 0.8,
-        max_env: if knobs.chance(0.06) { 12 } else { 3 },
+        max_env: if knobs.chance(0.09) { 12 } else { 3 },
         max_sub: t.max_sub,
         limits: match (ctor, knobs.below(4)) {
             (Ctor::Direct, 0) => LimitKind::None,
